@@ -74,7 +74,7 @@ fn verify_path_contract<const L: usize>() {
 
 //# harness: fn=MerkleTree::verify; label=bounded(proof lengths 1, 2, 3; every in-range index, every digest, any hash function); tier=quick; uses=verify_path_contract
 #[cfg_attr(kani, kani::proof)]
-#[cfg_attr(kani, kani::unwind(6))]
+#[cfg_attr(kani, kani::unwind(12))]
 #[cfg_attr(kani, kani::stub(alloc::fmt::format, vs::fake_format))]
 pub fn k_c19_verify_path_exact() {
     verify_path_contract::<1>();
@@ -86,23 +86,35 @@ pub fn k_c19_verify_path_exact() {
 // ------------------------------------------------------------------------------------------------
 // C19 / C05: wire-controlled depth where it is consumed
 
-//# harness: fn=map_indexes, MerkleTree::get_multiproof_domain_len, get_proof_domain_len; label=complete in depth (every usize / u8) with 1-2 symbolic indexes; tier=quick; props=C19,C05
+//# harness: fn=map_indexes, MerkleTree::get_multiproof_domain_len, get_proof_domain_len; label=complete in depth (every usize / u8) with one symbolic index; tier=quick; props=C19,C05; timeout=400
 #[cfg_attr(kani, kani::proof)]
-#[cfg_attr(kani, kani::unwind(8))]
+#[cfg_attr(kani, kani::unwind(12))]
 #[cfg_attr(kani, kani::stub(alloc::fmt::format, vs::fake_format))]
 pub fn k_c19_depth_consumers() {
     let depth = vs::any_usize();
-    let (i0, i1) = (vs::any_usize(), vs::any_usize());
-    let two = vs::any_bool();
-    let idx = [i0, i1];
-    let r = map_indexes(if two { &idx[..] } else { &idx[..1] }, depth);
-    let in_range = |i: usize| depth >= usize::BITS as usize || i < (1usize << depth);
-    let expect = in_range(i0) && (!two || (in_range(i1) && i0 != i1));
-    vcheck!("C19.map_indexes.ok_iff_distinct_and_in_range", r.is_ok() == expect);
+    let i0 = vs::any_usize();
+    let r = map_indexes(&[i0], depth);
+    let in_range = depth < usize::BITS as usize && i0 < (1usize << depth);
+    vcheck!("C19.map_indexes.ok_iff_in_range", r.is_ok() == in_range);
     let d = vs::any_u8();
     let p: BatchMerkleProof<HM> = BatchMerkleProof { nodes: Vec::new(), depth: d };
     let _ = <MerkleTree<HM> as VectorCommitment<HM>>::get_multiproof_domain_len(&p);
     vreach!("C19.depth.reach");
+}
+
+//# harness: fn=map_indexes (two indexes); label=bounded(depths 0, 1, 3; every pair of index values); tier=quick; props=C19; timeout=400
+#[cfg_attr(kani, kani::proof)]
+#[cfg_attr(kani, kani::unwind(12))]
+#[cfg_attr(kani, kani::stub(alloc::fmt::format, vs::fake_format))]
+pub fn k_c19_map_indexes_pairs() {
+    let (i0, i1) = (vs::any_usize(), vs::any_usize());
+    let r0 = map_indexes(&[i0, i1], 0);
+    vcheck!("C19.map_indexes.depth0", r0.is_err());
+    let r1 = map_indexes(&[i0, i1], 1);
+    vcheck!("C19.map_indexes.depth1.ok_iff_distinct_and_in_range", r1.is_ok() == (i0 < 2 && i1 < 2 && i0 != i1));
+    let r3 = map_indexes(&[i0, i1], 3);
+    vcheck!("C19.map_indexes.depth3.ok_iff_distinct_and_in_range", r3.is_ok() == (i0 < 8 && i1 < 8 && i0 != i1));
+    vreach!("C19.map_indexes.reach");
 }
 
 //# harness: fn=BatchMerkleProof::read_from; label=bounded(all byte strings of length <= 11); tier=quick; props=C05; timeout=400
@@ -185,7 +197,7 @@ fn malformed_batch(shape: &[usize], n_idx: usize, n_leaves: usize) {
 
 //# harness: fn=BatchMerkleProof::get_root, MerkleTree::verify_batch, BatchMerkleProof::into_openings; label=bounded(shapes: 0-2 node vectors of length 0-2, 1-2 indexes, 0-2 leaves, depth 0..=3; contents symbolic); tier=quick; uses=malformed_batch,nodes_of,digests,indexes_of; timeout=600
 #[cfg_attr(kani, kani::proof)]
-#[cfg_attr(kani, kani::unwind(6))]
+#[cfg_attr(kani, kani::unwind(12))]
 #[cfg_attr(kani, kani::stub(alloc::fmt::format, vs::fake_format))]
 pub fn k_c19_batch_malformed_a() {
     malformed_batch(&[], 1, 1);
@@ -197,7 +209,7 @@ pub fn k_c19_batch_malformed_a() {
 
 //# harness: fn=BatchMerkleProof::get_root, MerkleTree::verify_batch, BatchMerkleProof::into_openings; label=bounded(shapes with 2 indexes); tier=quick; uses=malformed_batch,nodes_of,digests,indexes_of; timeout=600
 #[cfg_attr(kani, kani::proof)]
-#[cfg_attr(kani, kani::unwind(6))]
+#[cfg_attr(kani, kani::unwind(12))]
 #[cfg_attr(kani, kani::stub(alloc::fmt::format, vs::fake_format))]
 pub fn k_c19_batch_malformed_b() {
     malformed_batch(&[2], 2, 2);
@@ -217,7 +229,7 @@ fn tree_of(n: usize) -> (Vec<D>, MerkleTree<HM>) {
 
 //# harness: fn=MerkleTree::new, build_merkle_nodes, prove, verify; label=bounded(2 and 4 leaves; every index, every digest); tier=quick; uses=tree_of,digests; timeout=400
 #[cfg_attr(kani, kani::proof)]
-#[cfg_attr(kani, kani::unwind(8))]
+#[cfg_attr(kani, kani::unwind(12))]
 #[cfg_attr(kani, kani::stub(alloc::fmt::format, vs::fake_format))]
 pub fn k_c18_tree_and_single_openings() {
     let (l2, t2) = tree_of(2);
@@ -265,7 +277,7 @@ fn batch_consistent(idx: &[usize]) {
 
 //# harness: fn=MerkleTree::prove_batch, verify_batch, BatchMerkleProof::get_root, from_single_proofs, into_openings; label=bounded(4 leaves; index sequences [1], [2,3], [3,0]; digests symbolic); tier=quick; uses=batch_consistent,tree_of,digests; timeout=900
 #[cfg_attr(kani, kani::proof)]
-#[cfg_attr(kani, kani::unwind(8))]
+#[cfg_attr(kani, kani::unwind(12))]
 #[cfg_attr(kani, kani::stub(alloc::fmt::format, vs::fake_format))]
 pub fn k_c18_batch_openings_a() {
     batch_consistent(&[1]);
@@ -276,7 +288,7 @@ pub fn k_c18_batch_openings_a() {
 
 //# harness: fn=MerkleTree::prove_batch, verify_batch, BatchMerkleProof::get_root, from_single_proofs, into_openings; label=bounded(4 leaves; index sequences [0,1,2,3], [2,0,1]; digests symbolic); tier=thorough; uses=batch_consistent,tree_of,digests; timeout=1800
 #[cfg_attr(kani, kani::proof)]
-#[cfg_attr(kani, kani::unwind(8))]
+#[cfg_attr(kani, kani::unwind(12))]
 #[cfg_attr(kani, kani::stub(alloc::fmt::format, vs::fake_format))]
 pub fn k_c18_batch_openings_b() {
     batch_consistent(&[0, 1, 2, 3]);
